@@ -81,11 +81,24 @@ fn run_ops_both(ctx: &mut Ctx, prop: &str, pshape: (usize, usize), win: Win, rec
         if !ctx.thin(thin) {
             continue;
         }
-        let oc = OpCase { pshape, win, recv, op: *op, keys, twin };
+        let oc = OpCase { pshape, win, recv, op: *op, keys, twin, spare: 0 };
         let o = run_op::<Kv>(ctx, &oc);
         let wsize = ((win.1).0 - (win.0).0, (win.1).1 - (win.0).1);
         if o != Outcome::Failed {
             ctx.nontrivial((prop, recv, wsize, pshape, win, *op, o == Outcome::Accepted, "Kv"));
+        }
+        if matches!(recv, Recv::Owned | Recv::ThinOwned | Recv::Direct) && pshape.0 > 0 {
+            // same call on a buffer with spare capacity (>= one row, and once less than one row)
+            for spare in [pshape.0 + 2, 1] {
+                let oc2 = OpCase { pshape, win, recv, op: *op, keys, twin, spare };
+                let o = run_op::<Kv>(ctx, &oc2);
+                if o != Outcome::Failed {
+                    ctx.nontrivial((prop, recv, wsize, pshape, win, *op, o == Outcome::Accepted, "Kv", spare));
+                }
+                if !matches!(op, Op::SwapRows(..) | Op::Sort(..) | Op::Translate(..) | Op::CopyWithin(..) | Op::FlipRows) {
+                    break; // the second capacity state only for the operations that move whole rows
+                }
+            }
         }
         if tok && !op.copy_only() {
             let o = run_op::<Tok>(ctx, &oc);
@@ -371,7 +384,7 @@ fn run_sorts(ctx: &mut Ctx, prop: &'static str, by_row: bool) {
                         if !ctx.thin(2) {
                             continue;
                         }
-                        let oc = OpCase { pshape, win, recv, op: *op, keys: &keys, twin: matches!(recv, Recv::View | Recv::Nested) };
+                        let oc = OpCase { pshape, win, recv, op: *op, keys: &keys, twin: matches!(recv, Recv::View | Recv::Nested), spare: if matches!(recv, Recv::Owned | Recv::ThinOwned) && pat % 2 == 1 { pshape.0 + 3 } else { 0 } };
                         let o = run_op::<Kv>(ctx, &oc);
                         if o != Outcome::Failed && (!sorted_already || o == Outcome::Rejected) {
                             ctx.nontrivial((prop, recv, (wc, wr), *op, pat, "Kv"));
@@ -422,7 +435,7 @@ fn run_sorts(ctx: &mut Ctx, prop: &'static str, by_row: bool) {
                     };
                     for &v in vars {
                         let op = Op::Sort(v, idx, rep == 1 && !v.is_ord());
-                        let oc = OpCase { pshape, win, recv, op, keys: &keys, twin: matches!(recv, Recv::View | Recv::Nested) };
+                        let oc = OpCase { pshape, win, recv, op, keys: &keys, twin: matches!(recv, Recv::View | Recv::Nested), spare: if matches!(recv, Recv::Owned | Recv::ThinOwned) && rep == 2 { pshape.0 * 2 + 1 } else { 0 } };
                         let o = run_op::<Kv>(ctx, &oc);
                         if o != Outcome::Failed {
                             ctx.nontrivial((prop, "big", recv, (wc, wr), op, rep, "Kv"));
